@@ -147,4 +147,123 @@ theorem writeToBuffer_redundant (m : AbstractModel) (h : WF m = true) (hcan : Ca
     rw [ht2, endsOf_foldl, hs2, wFileHeader_eq, List.append_assoc]
     rfl
 
+/-! ### 3. bytes of the written file; re-parse -/
+
+theorem zeros_append (a b : Nat) : zeros a ++ zeros b = zeros (a + b) := by
+  simp [zeros, List.replicate_append_replicate]
+
+theorem length_encodeMdlR (m : AbstractModel) (ρ : Redundant) :
+    (encodeMdlR m ρ).length = (encodeMdl m).length := by
+  simp only [encodeMdlR, encodeMdl, List.length_append, length_encFileHeader,
+    length_encModelData_redundant]
+
+theorem length_encodeMdl_sections (m : AbstractModel) :
+    (encodeMdl m).length = dataStart m + (sections m).length := by
+  rw [length_encodeMdl, length_sections]
+
+/-- **the writer echoes every stored copy and moves nothing**: the written buffer and the file it
+was parsed from differ by trailing zeros only — the buffer is the file followed by zeros (up to the
+declared end), or the file is the buffer followed by zeros (index padding behind the last mesh that
+no declared section end covers any more) -/
+theorem write_redundant_bytes (m : AbstractModel) (h : WF m = true) (hcan : Canonical m = true)
+    (ρ : Redundant) (v : View) (hv : view m = some v) :
+    ∃ buf k, writeToBuffer (parsedR m ρ v) = .ok buf ∧
+      (buf = encodeMdlR m ρ ++ zeros k ∨ encodeMdlR m ρ = buf ++ zeros k) := by
+  obtain ⟨t, k1, hsec, hw⟩ := writeToBuffer_redundant m h hcan ρ v hv
+  generalize max (dataStart m + t.length) (declaredEnd (ρ.fh (fileHeader m))) -
+    (dataStart m + t.length) = z at hw
+  have hR : encodeMdlR m ρ = (encFileHeader (ρ.fh (fileHeader m)) ++
+      encModelData m.version (ρ.md (modelData m))) ++ (t ++ zeros k1) := by
+    rw [encodeMdlR, hsec, List.append_assoc]
+  by_cases hz : k1 ≤ z
+  · refine ⟨_, z - k1, hw, Or.inl ?_⟩
+    rw [hR, show zeros z = zeros k1 ++ zeros (z - k1) by rw [zeros_append]; congr 1; omega]
+    simp only [List.append_assoc]
+  · refine ⟨_, k1 - z, hw, Or.inr ?_⟩
+    rw [hR, show zeros k1 = zeros z ++ zeros (k1 - z) by rw [zeros_append]; congr 1; omega]
+    simp only [List.append_assoc]
+
+/-- a file `encodeMdlR m ρ` followed by arbitrary bytes parses like `encodeMdlR m ρ` -/
+theorem parse_encodeR_append (m : AbstractModel) (h : WF m = true) (hw : noWeightsByte4 m = true)
+    (ρ : Redundant) (v : View) (hv : view m = some v) (extra : Bytes) :
+    fromExisting (encodeMdlR m ρ ++ extra) = .ok (parsedR m ρ v) := by
+  have hS : HasSections m (encodeMdlR m ρ ++ extra) := by
+    obtain ⟨pre, post, e, hl⟩ := (hasSections_redundant m ρ).sec
+    exact ⟨pre, post ++ extra, by rw [e]; simp only [List.append_assoc], hl⟩
+  have hok2 : modelDataOk (ρ.fh (fileHeader m)) (ρ.md (modelData m)) = true := by
+    rw [modelDataOk_redundant]; exact wf_modelDataOk m h
+  have e : encodeMdlR m ρ ++ extra = encFileHeader (ρ.fh (fileHeader m)) ++
+      (encModelData (ρ.fh (fileHeader m)).version (ρ.md (modelData m)) ++ (sections m ++ extra)) := by
+    simp only [encodeMdlR, List.append_assoc]; rfl
+  exact hS.parse_readsSame (by rw [e]; exact parseFileHeader_enc _ _)
+    (parseModelData_enc _ _ hok2 _) (readsSame_redundant ρ _ _) h hw v hv
+
+/-- **write ∘ parse on files with arbitrary redundant copies**: when some declared section end
+reaches the end of the file (`keepsTail`), the model parsed from `encodeMdlR m ρ` is written as that
+very file followed by zeros up to the declared end, and the written buffer re-parses to the same
+in-memory model -/
+theorem write_redundant (m : AbstractModel) (h : WF m = true) (hcan : Canonical m = true)
+    (ρ : Redundant) (hend : ρ.keepsTail m = true) (v : View) (hv : view m = some v) :
+    ∃ buf, writeToBuffer (parsedR m ρ v) = .ok buf ∧
+      buf = encodeMdlR m ρ ++
+        zeros (declaredEnd (ρ.fh (fileHeader m)) - (encodeMdlR m ρ).length) ∧
+      fromExisting buf = .ok (parsedR m ρ v) := by
+  obtain ⟨t, k1, hsec, hw⟩ := writeToBuffer_redundant m h hcan ρ v hv
+  have hend' : (encodeMdl m).length ≤ declaredEnd (ρ.fh (fileHeader m)) := by
+    simpa [Redundant.keepsTail] using hend
+  have hlen := length_encodeMdl_sections m
+  rw [hsec, List.length_append] at hlen
+  have hzl : (zeros k1).length = k1 := by simp [zeros]
+  rw [hzl] at hlen
+  have hR : encodeMdlR m ρ = (encFileHeader (ρ.fh (fileHeader m)) ++
+      encModelData m.version (ρ.md (modelData m))) ++ (t ++ zeros k1) := by
+    rw [encodeMdlR, hsec, List.append_assoc]
+  have hbuf : (encFileHeader (ρ.fh (fileHeader m)) ++ encModelData m.version (ρ.md (modelData m))) ++
+      (t ++ zeros (max (dataStart m + t.length) (declaredEnd (ρ.fh (fileHeader m))) -
+        (dataStart m + t.length))) =
+      encodeMdlR m ρ ++ zeros (declaredEnd (ρ.fh (fileHeader m)) - (encodeMdlR m ρ).length) := by
+    have hzz : zeros (max (dataStart m + t.length) (declaredEnd (ρ.fh (fileHeader m))) -
+        (dataStart m + t.length)) =
+        zeros k1 ++ zeros (declaredEnd (ρ.fh (fileHeader m)) - (encodeMdl m).length) := by
+      rw [zeros_append]; congr 1; omega
+    rw [length_encodeMdlR, hR, hzz]
+    simp only [List.append_assoc]
+  refine ⟨_, hw, hbuf, ?_⟩
+  rw [hbuf]
+  exact parse_encodeR_append m h (canonical_noWeightsByte4 m hcan) ρ v hv _
+
+/-- with fewer than three LODs in use every `ρ` keeps the tail: the third LOD of a canonical model
+is empty, so its index offset — kept by `ρ` — is the length of the file -/
+theorem keepsTail_of_lodCount (m : AbstractModel) (h : WF m = true) (hcan : Canonical m = true)
+    (hc : m.lodCount.toNat < 3) (ρ : Redundant) : ρ.keepsTail m = true := by
+  have W := wf_facts m h
+  have h3 := W.lods3
+  obtain ⟨al, hal⟩ : ∃ al, m.lods[2]? = some al :=
+    ⟨m.lods[2]'(by omega), List.getElem?_eq_getElem _⟩
+  have hempty : al.meshes = [] := by
+    simp only [Canonical, Bool.and_eq_true, List.all_eq_true, and_assoc] at hcan
+    obtain ⟨_, _, _, hdrop, _⟩ := hcan
+    have : al ∈ m.lods.drop m.lodCount.toNat := by
+      rw [List.mem_iff_getElem?]
+      refine ⟨2 - m.lodCount.toNat, ?_⟩
+      rw [List.getElem?_drop, ← hal]; congr 1; omega
+    simpa using hdrop al this
+  have hio := header_indexOffset m h 2 al hal
+  have hsum : (m.lods.map lodSize).sum = psum lodSize m.lods 3 :=
+    sum_eq_psum lodSize m.lods 3 (by rw [List.drop_eq_nil_of_le (by omega)]; intro x hx; simp at hx)
+  have hps : psum lodSize m.lods 3 = psum lodSize m.lods 2 + lodSize al :=
+    psum_succ lodSize m.lods 2 al hal
+  have hlen := length_encodeMdl m
+  have hfl := W.fileLen
+  have hz : lodSize al = 0 := lodSize_of_nil al hempty
+  have hvz : lodVertexSize al = 0 := by simp [lodVertexSize, hempty]
+  have hmem := ends_mem (ρ.fh (fileHeader m)).vertexOffsets (ρ.fh (fileHeader m)).indexOffsets
+    (ρ.fh (fileHeader m)).vertexBufferSize (ρ.fh (fileHeader m)).indexBufferSize 2 _
+    (ρ.fh (fileHeader m)).indexBufferSize.c hio rfl
+  have hle := (le_foldl_max _ 0).2 _ hmem
+  simp only [Redundant.keepsTail, decide_eq_true_eq]
+  rw [toUInt32_toNat _ (by omega)] at hle
+  unfold declaredEnd
+  omega
+
 end Physis.Mdl
